@@ -62,6 +62,18 @@ def run_case(case) -> tuple[str, dict] | None:
         wrapper = os.path.join(common.VERIF, 'harness', 'rsync_wrap.py')
         dest = os.path.join(root, 'backups')
         os.makedirs(dest)
+        orig_dump0 = backup_utils._sqlite_backup
+        order_seen = []
+
+        def logged_dump(src, dst):
+            # whatever dump function is installed at that moment (the same-second variant below replaces it) plus a record of the instant
+            cur(src, dst)
+            with open(ctl) as f:
+                cj = json.load(f)
+            cj.setdefault('steps', []).append('dump')
+            with open(ctl, 'w') as f:
+                json.dump(cj, f)
+        cur = orig_dump0
         try:
             manager = backup_utils.BackupManager(dest, keep=2, rsync_exe=wrapper)
             nback = 2 if case.get('incremental') else 1
@@ -75,17 +87,18 @@ def run_case(case) -> tuple[str, dict] | None:
                         # resolution rsync compares) as the dump of the first one; made deterministic by setting it on the temporary dump
                         first = os.path.realpath(os.path.join(dest, 'last-backup'))
                         mt = os.stat(os.path.join(first, 'packs.idx')).st_mtime_ns
-                        orig_dump = backup_utils._sqlite_backup
-
-                        def dump(src, dst, _o=orig_dump, _mt=mt):
+                        def dump(src, dst, _o=orig_dump0, _mt=mt):
                             _o(src, dst)
                             os.utime(dst, ns=(_mt, _mt))
-                        backup_utils._sqlite_backup = dump
+                        cur = dump
+                backup_utils._sqlite_backup = logged_dump
                 try:
                     manager.backup_auto_folders(lambda path, prev: backup_utils.backup_container(manager, c, path, prev))
+                    with open(ctl) as f:
+                        order_seen.append(json.load(f).get('steps', []))
                 finally:
-                    if n == 1 and case.get('same_second'):
-                        backup_utils._sqlite_backup = orig_dump
+                    backup_utils._sqlite_backup = orig_dump0
+                    cur = orig_dump0
         except backup_utils.BackupError as e:
             return None  # the backup did not complete successfully: outside the property
         finally:
@@ -128,6 +141,9 @@ def run_case(case) -> tuple[str, dict] | None:
         raw = store.raw_state(bdir, 'sha256')
         if raw['problems']:
             return ('raw check of the backup: ' + '; '.join(raw['problems'][:2]), {})
+        for steps in order_seen:
+            if steps != case.get('expected_order', steps):
+                return ('the backup completed and is right, but its steps ran in the order ' + ','.join(steps), {'order': True})
         return None
     finally:
         shutil.rmtree(root, ignore_errors=True)
@@ -187,18 +203,29 @@ def main(tier, seed, replay=None):
             case['incremental'] = True
             case['same_second'] = rnd.random() < 0.5
         cases.append(case)
+    # the order of the backup's steps the run model of Backup.v assumes (from the extracted constant)
+    import subprocess
+    pr = subprocess.run([os.path.join(common.OCAML, 'driver')], input='backup_phases\n', capture_output=True, text=True, timeout=60)
+    expected_order = pr.stdout.strip().split(',') if pr.returncode == 0 and pr.stdout.strip() and not pr.stdout.startswith('ERROR') else None
+    ck.obligation('Backup.backup_phases available from the extracted model', expected_order is not None, pr.stdout[:100] + pr.stderr[:100], kind='correspondence')
     for i, cs in enumerate(cases):
+        if expected_order:
+            cs['expected_order'] = expected_order
         cs.setdefault('pinned', i % 3 != 0)   # two thirds of the backups go through a handle that has read the index before
     with mp.get_context('fork').Pool(min(common.NPROC, 12)) as pool:
         results = pool.map(_one, cases, chunksize=1)
     nf = 0
     completed = 0
+    order_bad = []
     for case, r in zip(cases, results):
         ck.count(case['plan'], nontrivial=True)
         if r is None:
             completed += 1
             continue
         msg, info = r
+        if info.get('order'):
+            order_bad.append(msg)
+            continue
         if info.get('harness') or info.get('exc'):
             ck.obligation('backup harness executed', False, msg, kind='correspondence')
             continue
@@ -209,6 +236,8 @@ def main(tier, seed, replay=None):
                 where += ' | second, incremental backup' + (' taken within the same second' if case.get('same_second') else '') + ': ' + \
                          ','.join(f"{p['action']['kind']}@{p['when']}-call{p['call']}" for p in case.get('plan2', case['plan']))
             ck.fail(f'backup with concurrent steps [{where}]: {msg}', {'kind': 'backup-schedule', 'case': case}, 'C15:backup')
+    ck.obligation(f'steps of backup_container occur in the order of Backup.backup_phases ({expected_order}) in every completed backup',
+                  not order_bad, order_bad[0] if order_bad else f'{completed} backups', kind='correspondence')
     ck.cov['backups_run'] = len(cases)
     ck.sample(cases[3])
     ck.sample(cases[-1])
